@@ -118,8 +118,10 @@ def plans_for(prog, tier, rng, vals=(0, 1, 2)):
         seqs = list(itertools.product(atoms, repeat=L))
     else:
         seqs = [tuple(rng.choice(atoms) for _ in range(L + 1)) for _ in range(60 if tier == "quick" else 400)]
+    feedback = any(u > i for i, nd in enumerate(prog, start=1) for u in nd["ups"])
     for si, seq in enumerate(seqs):
-        pat = MD_PATTERNS[si % len(MD_PATTERNS)]
+        # metadata is not sent round feedback cycles (see SyncFlow.tla, RcBalanced)
+        pat = ("none",) * 8 if feedback else MD_PATTERNS[si % len(MD_PATTERNS)]
         ops = [("emit", e, v, pat[i], ()) for i, (e, v) in enumerate(seq)]
         if cols:
             # flush in the middle and at the end (and a double flush = empty flush)
@@ -131,7 +133,7 @@ def plans_for(prog, tier, rng, vals=(0, 1, 2)):
     # longer random runs with more repeats (duplicates matter for unique / partition_unique)
     for _ in range(4 if tier == "quick" else 25):
         n = rng.randint(5, MAX_EMITS)
-        pat = rng.choice(MD_PATTERNS)
+        pat = ("none",) * 8 if feedback else rng.choice(MD_PATTERNS)
         ops = [("emit",) + rng.choice(atoms) + (pat[i], ()) for i in range(n)]
         if cols:
             j = rng.randrange(n)
@@ -157,7 +159,7 @@ def fail_plans_for(prog, tier, rng, vals=(0, 1, 2)):
             elif r < 0.5:
                 fa = (1, 2)
             e, v = rng.choice(atoms)
-            ops.append(("emit", e, v, "two", fa))
+            ops.append(("emit", e, v, "none" if any(u > i for i, nd in enumerate(prog, start=1) for u in nd["ups"]) else "two", fa))
         if cols:
             ops.append(("flush", cols[0], (1,) if rng.random() < 0.5 else ()))
             ops.append(("emit",) + rng.choice(atoms) + ("two", ()))
